@@ -86,11 +86,13 @@ def requests_for(r, group, n, dbg, storages=("o",), norm="valid", ops=None):
 T_VALUES = [0.0, 1.0, 0.5, 0.25, 1e-9, 1 - 1e-9, -0.1, 1.5, -1e-300, 1.0000000000000002, float("nan")]
 
 
-def small_tangent(r, group, radius):
+def small_tangent(r, group, radius, zero_ang=False):
     g = gen.GROUPS[group]
     out = []
     for kind, n in g["tan"]:
         m = radius * r.random()
+        if zero_ang and kind in ("ang1", "ang3"):
+            m = 0.0        # same orientation for the whole cloud: relative rotations exactly zero
         d, _ = gen.direction(r, n if kind != "ang1" else 1)
         out += [m * x for x in d]
     return out
@@ -100,7 +102,10 @@ def make_points(exe, r, group, count, radius, dbg=True, lin_only=("zero", "unit"
     """a cloud of `count` valid elements within geodesic radius `radius` of a random centre,
     produced by the implementation itself (X.rplus(delta)); -> (centre, points, tags)"""
     X, tags = gen.element(r, group, norm="exact", lin_only=list(lin_only))
-    lines = [gen.req(dbg, "o", group, "rplus", 0, X + small_tangent(r, group, radius)) for _ in range(count)]
+    zero_ang = r.random() < 0.25
+    if zero_ang:
+        tags = tags + ["cloud:same-orientation"]
+    lines = [gen.req(dbg, "o", group, "rplus", 0, X + small_tangent(r, group, radius, zero_ang)) for _ in range(count)]
     rc, out, err = vlib.run_lines(exe, lines)
     pts = []
     for o in out:
